@@ -30,4 +30,9 @@ theorem pruneGlue_order : Facts.c18_pruneBlocks_glue_order = ["PruneBlocks", "Pr
 /-- the model's checkpoint interval IS the source constant -/
 theorem checkpoint_interval : StateStore.interval = Facts.c18_valSetCheckpointInterval := rfl
 
+/-- every consensus-parameter update moves `LastHeightConsensusParamsChanged` (whatever fields it
+touches: `HashConsensusParams` covers only Block.MaxBytes/MaxGas), so `LoadConsensusParams` finds
+the params of every retained height (seeded change C18-r6-1 made it conditional on the hash) -/
+theorem params_change_height_unconditional : Facts.c18_params_change_height_unconditional = true := by decide
+
 end Tmv.Expect.C18
